@@ -303,8 +303,20 @@ def _get_single_args(*args):
     return res
 
 
-_re_condition = re.compile('(?<!~)[?*]')
+_re_condition = re.compile(r'~([?*~])|([?*])|([^?*~]+|~)')
 _re_wildcards = {'?': '.', '*': '.*'}
+
+
+def _parse_wildcards(condition):
+    # `?` and `*` are wildcards unless escaped by `~`, which escapes itself too.
+    it = _re_condition.findall(condition)
+    text = ''.join(esc or lit for esc, wild, lit in it if not wild)
+    if any(wild for esc, wild, lit in it):
+        return text, ''.join(
+            _re_wildcards[wild] if wild else re.escape(esc or lit)
+            for esc, wild, lit in it
+        )
+    return text, None
 
 
 def _xfilter(accumulator, test_range, condition, operating_range):
@@ -323,13 +335,9 @@ def _xfilter(accumulator, test_range, condition, operating_range):
                 operator, condition = k, condition[len(k):]
                 break
         if operator in ('=', '<>'):
-            it = _re_condition.findall(condition)
-            if it:
-                _ = lambda v: re.escape(v.replace('~?', '?').replace('~*', '*'))
-                match = re.compile(''.join(sum(zip(
-                    map(_, _re_condition.split(condition)),
-                    tuple(map(_re_wildcards.get, it)) + ('',)
-                ), ())), re.IGNORECASE | re.DOTALL).fullmatch
+            text, pattern = _parse_wildcards(condition)
+            if pattern:
+                match = re.compile(pattern, re.IGNORECASE | re.DOTALL).fullmatch
                 f = lambda v: isinstance(v, str) and bool(match(v))
                 b = np.vectorize(f, otypes=[bool])(test_range['raw'])
                 b &= ~test_range['empty']  # A wildcard matches only text.
@@ -339,8 +347,8 @@ def _xfilter(accumulator, test_range, condition, operating_range):
                     return accumulator(operating_range[b])
                 except FoundError as ex:
                     return ex.err
-            elif any(v in condition for v in ('~?', '~*')):
-                condition = condition.replace('~?', '?').replace('~*', '*')
+            else:
+                condition = text
         from ..tokens.operand import Number, Error
         from ..errors import TokenError
         for token in (Number, Error):
